@@ -131,7 +131,7 @@ func TestHealthFlapBackoff(t *testing.T) {
 		fx.SkipSubcheck("health_flap_backoff", "needs the timing setter hook")
 		return
 	}
-	fx.Run(t, fx.Spec[FlapCase]{Prop: "C19", Name: "health_flap_backoff", Quick: 16, Thorough: 200, Gen: genFlap, Run: runFlap, ShrinkTime: "60s",
+	fx.Run(t, fx.Spec[FlapCase]{Prop: "C19", Name: "health_flap_backoff", Journal: true, Quick: 16, Thorough: 200, Gen: genFlap, Run: runFlap, ShrinkTime: "60s",
 		Class: func(c FlapCase) fx.Class {
 			flap := false
 			for i := 1; i < len(c.Script); i++ {
